@@ -524,6 +524,50 @@ namespace
                             h2->check();
                             L().check("C11");
                         }
+                        else if (x < 62)
+                        {
+                            // the vector member grows inside the joint memory (reallocation: the old buffer is released while later
+                            // allocations are alive); everything else must stay where and what it is
+                            auto i = r.below(ptrs.size());
+                            if (!*ptrs[i])
+                                continue;
+                            auto& obj = **ptrs[i];
+                            op("grow the vector member of #%zu", i);
+                            std::vector<E> a0(obj.a.get().begin(), obj.a.get().end());
+                            std::vector<F> b0(obj.b.get().begin(), obj.b.get().end()), v0(obj.v.get().begin(), obj.v.get().end());
+                            int pushed = 0;
+                            try
+                            {
+                                for (int k = 0, n = int(r.range(1, 12)); k < n; ++k)
+                                {
+                                    obj.v.get().emplace_back((unsigned char)(0x40 + k));
+                                    v0.emplace_back((unsigned char)(0x40 + k));
+                                    ++pushed;
+                                }
+                            }
+                            catch (out_of_fixed_memory&)
+                            {
+                                count("out_of_fixed_memory");
+                            }
+                            if (v0.size() > obj.v.get().size())
+                                v0.pop_back(); // the element whose insertion failed
+                            verify_layout(obj, *owner[i]->s, kind);
+                            bool same = a0.size() == obj.a.get().size() && b0.size() == obj.b.get().size() && v0.size() == obj.v.get().size();
+                            for (std::size_t k = 0; same && k < a0.size(); ++k)
+                                same = a0[k] == obj.a.get()[k];
+                            for (std::size_t k = 0; same && k < b0.size(); ++k)
+                                same = b0[k] == obj.b.get()[k];
+                            for (std::size_t k = 0; same && k < v0.size(); ++k)
+                                same = v0[k] == obj.v.get()[k];
+                            if (!same)
+                                viol("C11", "C11/" + kind + "/member-overwritten", "after the vector member grew inside the joint memory another member's elements changed");
+                            plans[i].nv = obj.v.get().capacity();
+                            h1->check();
+                            h2->check();
+                            L().check("C11");
+                            count("vector_growths", pushed);
+                            flag("grow");
+                        }
                         else if (x < 70)
                         {
                             auto i = r.below(ptrs.size());
